@@ -731,12 +731,12 @@ Print Assumptions C01_rebuild_same_year.
 
 (* ---- WEEKLY *)
 (* the week's day set: from the cursor to the end of its WKST-week, possibly reaching into the 7-day
-   extension of the year's masks *)
+   extension of the year's masks, and not beyond 9999-12-31 (fix 8ced7a9) *)
 Theorem C01_wdayset_correct : forall rl ii y year month day,
   ii_for ii y -> 0 <= wkst rl <= 6 -> valid_ymd year month day = true ->
   let i0 := ord_of_ymd year month day - jan1 y in
   0 <= i0 < year_len y ->
-  let L := week_rest (weekday_of_ord (jan1 y)) (wkst rl) i0 in
+  let L := Z.min (week_rest (weekday_of_ord (jan1 y)) (wkst rl) i0) (max_ord + 1 - (jan1 y + i0)) in
   exists ds suf,
     wdayset rl ii year month day = Ok (ds, i0, i0 + L) /\
     ds = repeat None (Z.to_nat i0) ++ map Some (zrange i0 (i0 + L)) ++ suf /\ 1 <= L <= 7.
